@@ -253,7 +253,11 @@ def main(argv=None):
     try:
         if second is not None:
             mod.SECOND_RESULT = second
-        evpath = write_evidence(pid, args.tier, seed, mod, merged, reg_info, known_info,
+        if os.environ.get("VERIF_NOEVIDENCE"):
+            raise_skip = True
+        else:
+            raise_skip = False
+        evpath = None if raise_skip else write_evidence(pid, args.tier, seed, mod, merged, reg_info, known_info,
                                 wall, len(violations), errors)
     except Exception as e:  # noqa
         import traceback
